@@ -453,7 +453,7 @@ func TestC18_JSON(t *testing.T) {
 	types := map[string]int64{}
 	inputs := map[string]int64{}
 	rapid.Check(t, func(rt *rapid.T) {
-		v := th.PickVariant(rt, "vtu", "vtw")
+		v := th.PickVariant(rt, "vtu", "vtw", "vtu2")
 		s := drawSite(rt, v, nil)
 		keys := drawKeys(rt, s, isAvoidKey)
 		var in jin
@@ -688,7 +688,7 @@ func TestC18_TypedValue(t *testing.T) {
 	var cnt struct{ total, accepted, rejected, mustReject, mustRejectRejected, denotes, denotesAccepted, nontrivial int64 }
 	kinds := map[string]int64{}
 	rapid.Check(t, func(rt *rapid.T) {
-		v := th.PickVariant(rt, "vtu", "vtw")
+		v := th.PickVariant(rt, "vtu", "vtw", "vtu2")
 		s := drawSite(rt, v, func(s *site) bool { return !s.keyTarget() && !s.hasUnkeyed() })
 		keys := drawKeys(rt, s, isAvoidKey)
 		var in tvin
